@@ -52,9 +52,12 @@ type violation struct {
 	min    *Case // minimal reproduction
 }
 
-var roles = []sim.Role{{ValIdx: 0, IsWitness: true}, {ValIdx: 0, IsWitness: true}}
+// replica 0 receives the mutants, replica 1 is its twin (same blocks without the mutants,
+// nothing else), replica 2 runs the control executions of the originals (its mempool state
+// is touched by them, so it is never compared).
+var roles = []sim.Role{{ValIdx: 0, IsWitness: true}, {ValIdx: 0, IsWitness: true}, {ValIdx: 0, IsWitness: true}}
 
-// world builds the two-replica farm world of a case.
+// buildWorld builds the farm world of a case.
 func buildWorld(seed string, o hist.FarmOpts) (*hist.World, *hist.Farm, error) {
 	p := hist.PrepareFarmParams(hist.FarmParams(seed), o)
 	w, err := hist.NewWorld(p, roles)
@@ -111,7 +114,7 @@ func short(b []byte) string {
 // evalSubject evaluates one subject on the world: replica 0 receives the mutants, replica 1
 // is the twin (control execution of the original, then the block without the mutants).
 func evalSubject(w *hist.World, c *Case, s *Subject) (*subjRes, *violation) {
-	r0, r1 := w.R[0], w.R[1]
+	r0, r1, r2 := w.R[0], w.R[1], w.R[2]
 	chainID := w.P.ChainID
 	res := &subjRes{kind: s.Kind}
 	minCase := func(m *Mut) *Case {
@@ -140,12 +143,12 @@ func evalSubject(w *hist.World, c *Case, s *Subject) (*subjRes, *violation) {
 
 	tmpl := w.C.MakeBlock(sim.BlockSpec{GapSecs: 5})
 
-	// control: the original on the twin (mempool check, then speculative delivery at this height)
-	ck := r1.CheckTx(s.Orig)
+	// control: the original on the control replica (mempool check, then speculative delivery at this height)
+	ck := r2.CheckTx(s.Orig)
 	if v := panicked("CheckTx of the original", nil); v != nil {
 		return res, v
 	}
-	sp := r1.SpecBlock(withTxs(tmpl, [][]byte{s.Orig}))
+	sp := r2.SpecBlock(withTxs(tmpl, [][]byte{s.Orig}))
 	if v := panicked("DeliverTx of the original", nil); v != nil {
 		return res, v
 	}
@@ -196,6 +199,7 @@ func evalSubject(w *hist.World, c *Case, s *Subject) (*subjRes, *violation) {
 		return res, v
 	}
 	b1 := r1.RunBlock(withTxs(tmpl, nil))
+	r2.RunBlock(withTxs(tmpl, nil))
 	if v := panicked("the twin's block", nil); v != nil {
 		return res, v
 	}
@@ -311,10 +315,12 @@ func TestC04(t *testing.T) {
 	h.SetRule(rule)
 	shard, shards := run.Shard()
 	perCase := h.Scale(11, 33)
-	caseN := 0
+	var first *violation // once a violation is found its minimal case is final: rapid's own shrinking re-runs end at once
 	rapid.Check(t, func(rt *rapid.T) {
 		u := hist.NewU(rt)
-		caseN++
+		if first != nil {
+			h.Fail(rt, first.oracle, "C04/"+first.oracle+"/"+first.class, first.min, "%s", first.msg)
+		}
 		c := &Case{Seed: fmt.Sprintf("c04-%d-%d", h.Seed, u.N(4, "keyseed"))}
 		c.Opts = hist.FarmOpts{A: u.N(8, "A"), B: u.N(8, "B"), Eth: u.N(4, "eth"), Var: u.N(50, "var")}
 		if c.Opts.B == c.Opts.A {
@@ -350,6 +356,7 @@ func TestC04(t *testing.T) {
 				results = append(results, r)
 			}
 			if v != nil {
+				first = v
 				h.Fail(rt, v.oracle, "C04/"+v.oracle+"/"+v.class, v.min, "%s", v.msg)
 			}
 		}
